@@ -55,8 +55,12 @@ def run(ctx, factor):
                     macros.insert(ui + 1, refdef)
             else:
                 macros.insert(g.int(0, len(macros)), refdef)
-        if g.chance(0.08):
-            macros.append({"name": "noat", "pattern": "x"})
+        if g.chance(0.1):
+            # a macro whose own name does not START with @ (no @ at all, or an @ further inside) must be rejected
+            bad = g.pick(["noat", "any@reg", "reg@", "%@tmp", "x@"])
+            macros.append({"name": bad, "pattern": "x"})
+            if g.chance(0.5) and "@" in bad:
+                pat.append(bad)
         files = []
         d = dict(doc)
         if g.chance(0.3):
